@@ -2248,10 +2248,13 @@ Lemma nobody_on h g c cn : Jh h g -> aget (h_conns h) c = Some cn -> c_sess cn =
   forall x s, get_sess h x = Some s -> s_conn s <> Some c.
 Proof. intros H Hc Hn x s Hx Hxc. destruct (j_cs _ _ H x s c Hx Hxc) as (cn' & Hcn' & Hcs'). congruence. Qed.
 
-Lemma J_step h g o : WF h -> J h g -> h_bus h = [] -> J (fst (step h o)) (gouts g (snd (step h o))).
+(* the requests that must not be processed while a "session joined" notice is still queued *)
+Definition needs_quiet (o : op) : bool := match o with OJoin _ _ _ _ | OInternal _ _ => true | _ => false end.
+
+Lemma J_step_gen h g o : WF h -> J h g -> (needs_quiet o = true -> forall p, In p (h_bus h) -> not_asj p) ->
+  (forall pos, o = ODeliver pos -> h_bus h = []) -> J (fst (step h o)) (gouts g (snd (step h o))).
 Proof.
-  intros W HJ Hbus. unfold J in *.
-  assert (Hna : forall p, In p (h_bus h) -> not_asj p) by (rewrite Hbus; intros p []).
+  intros W HJ Hquiet Hd. unfold J in *.
   destruct o as [c addr|c hl|c rn rs rep|c to tag|c to tag|c|c|secs|b signas room q|c q|c to mk stream media|tok ok|c kindn key val|pos|c hl late];
     cbn [step].
   - (* connect *)
@@ -2263,7 +2266,7 @@ Proof.
     apply Jg_do_hello; [exact Hno|]. now apply Jg_set_conn.
   - (* join *)
     apply J_with_session; auto. intros cn sid s Hc Hcs Hs Hv.
-    pose proof (Jg_do_join h g c sid s rn rs rep W HJ Hs Hv Hna) as J1.
+    pose proof (Jg_do_join h g c sid s rn rs rep W HJ Hs Hv (Hquiet eq_refl)) as J1.
     destruct (do_join h c sid s rn rs rep) as [h1 o1]. cbn [fst snd] in J1.
     destruct rep as [[p|] su|code]; try exact J1. destruct (get_sess h1 sid) as [s1|]; [|exact J1].
     match goal with |- context [if ?b then _ else _] => destruct b end; [|exact J1].
@@ -2295,7 +2298,7 @@ Proof.
     destruct (negb (N.eqb b signas) || (h_nb h <=? b)); [exact HJ|now apply Jg_do_api].
   - (* internal *)
     apply J_with_session; auto. intros cn sid s _ _ Hs _. destruct (is_internal (s_kind s)) eqn:Hi; [|exact HJ].
-    now apply J_do_internal.
+    apply J_do_internal; auto.
   - (* media *)
     apply J_with_session; auto. intros cn sid s _ _ Hs _. apply (Jg_quiet none2 no1 h g); [now apply quiet_do_media|exact HJ].
   - (* media server *)
@@ -2313,7 +2316,7 @@ Proof.
     + destruct (aget (r_transient r) key) as [v|]; [destruct (N.eqb v val); [exact HJ|]|]; (apply (Jg_quiet none2 no1 h g); [apply Hq|exact HJ]).
     + destruct (aget (r_transient r) key) as [v|]; [|exact HJ]. apply (Jg_quiet none2 no1 h g); [apply Hq|exact HJ].
   - (* deliver: nothing is queued *)
-    unfold deliver_at. rewrite Hbus. destruct (N.to_nat pos); exact HJ.
+    unfold deliver_at. rewrite (Hd pos eq_refl). destruct (N.to_nat pos); exact HJ.
   - (* hello aborted *)
     destruct (aget (h_conns h) c) as [cn|]; [|exact HJ]. destruct (c_sess cn); [exact HJ|].
     destruct hl as [b u rej|b u t|b tok f d|i]; try exact HJ.
@@ -2326,6 +2329,9 @@ Proof.
       cbn [fst snd] in *. rewrite gouts_cons. exact J2.
     + now apply Jg_close_conn.
 Qed.
+
+Lemma J_step h g o : WF h -> J h g -> h_bus h = [] -> J (fst (step h o)) (gouts g (snd (step h o))).
+Proof. intros W HJ Hb. apply J_step_gen; auto. intros _ p. rewrite Hb. intros []. Qed.
 
 (* ------------------------------------------------------------------ delivering the first queued publication *)
 Lemma Jh_pop h g p rest : h_bus h = p :: rest -> Jh h g -> Jh (set_bus h rest) g.
@@ -3154,3 +3160,80 @@ Lemma observers_quiescent_without_drained_refuted :
   views_of (vrun (init [0; 0] false, g0) fuel_ops) = [(1, Some (6, [1; 2]), Some (0, 6)); (2, Some (5, [2]), Some (0, 5))] /\
   members_of (fst (vrun (init [0; 0] false, g0) fuel_ops)) = [((0, 5), [2]); ((0, 6), [1])].
 Proof. vm_compute. repeat split; reflexivity. Qed.
+
+(* ------------------------------------------------------------------ explicit deliveries in publication order *)
+(* Histories with explicit deliveries (run), every one of them of the FIRST queued publication.  The
+   invariant survives every such history in which no join request and no request of an internal
+   client is processed while a "session joined" notice is still queued (observers_fifo_refuted: the
+   exclusion is needed); the quiescent histories are the special case "nothing is queued". *)
+Definition vstep2 (st : hub * ghost) (o : op) : hub * ghost :=
+  let '(h', outs) := step (fst st) o in (h', gouts (snd st) outs).
+Definition vrun2 (st : hub * ghost) (ops : list op) : hub * ghost := fold_left vstep2 ops st.
+
+Fixpoint fifo_guarded (h : hub) (ops : list op) : Prop :=
+  match ops with
+  | [] => True
+  | o :: r => (forall pos, o = ODeliver pos -> pos = 0) /\
+              (needs_quiet o = true -> forall p, In p (h_bus h) -> not_asj p) /\
+              fifo_guarded (fst (step h o)) r
+  end.
+
+Lemma J_step_fifo h g o : WF h -> J h g -> (forall pos, o = ODeliver pos -> pos = 0) ->
+  (needs_quiet o = true -> forall p, In p (h_bus h) -> not_asj p) -> J (fst (step h o)) (gouts g (snd (step h o))).
+Proof.
+  intros W HJ Hp Hq. destruct o; try (apply J_step_gen; auto; intros pos' E; discriminate E).
+  rewrite (Hp pos eq_refl). cbn [step]. now apply J_deliver.
+Qed.
+
+Lemma vrun2_hub ops : forall st, fst (vrun2 st ops) = run (fst st) ops.
+Proof.
+  induction ops as [|o r IH]; intros st; [reflexivity|]. cbn [vrun2 fold_left run]. fold (vrun2 (vstep2 st o) r). rewrite IH.
+  unfold vstep2. destruct (step (fst st) o). reflexivity.
+Qed.
+
+Theorem J_vrun2 ops : forall h g, WF h -> J h g -> fifo_guarded h ops -> J (fst (vrun2 (h, g) ops)) (snd (vrun2 (h, g) ops)).
+Proof.
+  induction ops as [|o r IH]; intros h g W HJ Hg; [exact HJ|]. destruct Hg as (Hp & Hq & Hr).
+  cbn [vrun2 fold_left]. fold (vrun2 (vstep2 (h, g) o) r).
+  pose proof (J_step_fifo h g o W HJ Hp Hq) as J1. pose proof (wf_step h o W) as W1.
+  unfold vstep2. cbn [fst snd]. destruct (step h o) as [h1 o1]. cbn [fst snd] in *. now apply IH.
+Qed.
+
+Theorem observers_converge_fifo_guarded limits gated ops :
+  fifo_guarded (init limits gated) ops ->
+  let st := vrun2 (init limits gated, g0) ops in
+  fst st = run (init limits gated) ops /\
+  (h_bus (fst st) = [] -> observers_converged (fst st) (snd st) /\ observers_converged_queued (fst st) (snd st)).
+Proof.
+  intros Hg. cbv zeta. split; [apply (vrun2_hub ops (init limits gated, g0))|]. intros Hb.
+  pose proof (J_vrun2 ops (init limits gated) g0 (wf_init limits gated) (J_init limits gated) Hg) as HJ.
+  split; [now apply J_observers|now apply J_observers_queued].
+Qed.
+
+(* the history of the existing refutation for ARBITRARY delivery orders in the order a FIFO bus produces: guarded *)
+Definition fifo_ops : list op :=
+  [OConnect 1 0; OConnect 2 0; OConnect 3 0; OHello 1 (HV1 0 1 false); OHello 2 (HV1 0 2 false); OHello 3 (HV1 0 3 false);
+   OJoin 1 1 1 (RepOk None 0); ODeliver 0; ODeliver 0;
+   OJoin 2 1 2 (RepOk None 0); ODeliver 0; OMsg 1 RRoom 9; ODeliver 0; ODeliver 0; ODeliver 0;
+   OJoin 3 1 3 (RepOk None 0); ODeliver 0; ODeliver 0; ODeliver 0;
+   OJoin 2 0 0 (RepOk None 0); OBye 3; ODeliver 0; ODeliver 0].
+Fixpoint fifo_guardedb (h : hub) (ops : list op) : bool :=
+  match ops with
+  | [] => true
+  | o :: r => (match o with ODeliver pos => N.eqb pos 0 | _ => true end) &&
+              (negb (needs_quiet o) || forallb (fun p => match p_msg p with ASessionJoined _ _ => false | _ => true end) (h_bus h)) &&
+              fifo_guardedb (fst (step h o)) r
+  end.
+Lemma fifo_guardedb_ok ops : forall h, fifo_guardedb h ops = true -> fifo_guarded h ops.
+Proof.
+  induction ops as [|o r IH]; intros h H; cbn [fifo_guarded fifo_guardedb] in *; [exact I|].
+  apply andb_true_iff in H as [H H3]. apply andb_true_iff in H as [H1 H2]. split; [|split; [|now apply IH]].
+  - intros pos ->. now apply N.eqb_eq.
+  - intros Hn p Hp x i Hm. rewrite Hn in H2. cbn in H2. rewrite forallb_forall in H2. specialize (H2 p Hp). rewrite Hm in H2. discriminate.
+Qed.
+Example fifo_ops_guarded : fifo_guarded (init [0; 0] false) fifo_ops /\ h_bus (run (init [0; 0] false) fifo_ops) = [] /\
+  views_of (vrun2 (init [0; 0] false, g0) fifo_ops) = [(1, Some (1, [1]), Some (0, 1)); (2, None, None)].
+Proof. split; [apply fifo_guardedb_ok; vm_compute; reflexivity|]. vm_compute. split; reflexivity. Qed.
+(* ... and the history of observers_fifo_refuted is not *)
+Example stale_snapshot_not_guarded : fifo_guardedb (init [0; 0] false) stale_snapshot_ops = false.
+Proof. vm_compute. reflexivity. Qed.
